@@ -633,6 +633,12 @@ func c01record(kind, name, seed, obs string) {
 	cov := c01modelled[name]
 	if cov == "" || kind == "msgext" || kind == "presext" || kind == "iqpayload" {
 		cov = "sampled-only"
+		if (kind == "msgext" || kind == "presext" || kind == "iqpayload") && c01sIsModelled(name) {
+			cov = "modelled (schema codec, C01_roundtrip_" + name + "; also sampled here inside its stanza)"
+		}
+		if _, ok := c01sDispatch[name]; (ok || name == "Command") && (kind == "msgext" || kind == "iqpayload" || kind == "cmd-elements") {
+			cov = "modelled by hand over the schema codec (dispatch decoder, C01_roundtrip_" + name + "; class excludes the recorded regions); also sampled here inside its stanza"
+		}
 	}
 	var cl []string
 	for c, n := range r.classes {
@@ -674,7 +680,8 @@ func c01genSamples(rng *rand.Rand, tier string, st *Stats, add func(op ...string
 	}
 	run("msgmix", "Message")
 	st.Extra["coverage modelled"] = "Message(envelope+Err), Presence(envelope+Err), IQ(envelope+Err+Any), Err, Node, SMEnable, SMEnabled, SMRequest, SMAnswer, SMResumed, SMResume, SMFailed, SASLAuth, Handshake"
-	st.Extra["coverage uncovered"] = "no Lean model: every registered extension / payload type (rows `type msgext:*`, `presext:*`, `iqpayload:*`, `cmd-elements:*`); not exercised at all: StreamFeatures, StreamError, SASLSuccess, SASLFailure, TLSProceed, Tune, Mood"
+	st.Extra["coverage modelled"] += "; schema codec (one generic theorem, schemas regenerated from the struct tags): " + strings.Join(c01sModelled, ", ") + "; hand-written decoders modelled by hand: PubSubOwner, PubSubEvent, Command (Note.Text `,cdata` excluded); composition: Message / Presence / IQ with modelled extensions / payload"
+	st.Extra["coverage uncovered"] = "no Lean model (sampled only): ControlSet (`,any` slice of elements with dynamic names), HTML (xml:lang attribute, `,innerxml` body), and a stanza TOGETHER with its extensions / payload (rows `type msgmix:*`, `packet:*`); not exercised at all: StreamFeatures, StreamError, SASLSuccess, SASLFailure, TLSProceed, Tune, Mood"
 	st.Extra["raw by design"] = "element/attribute names: Node.XMLName, Node.Attrs[].Name, Err.Reason, ControlField.XMLName; innerxml: SASLAuth.Value, Handshake.Value, HTMLBody.InnerXML (generated as plain names / plain character data)"
 	st.Note(fmt.Sprintf("sampling: %d type-directed random values for each of %d registered / top-level types through marshal -> stream -> NextPacket (or xml.Unmarshal) -> dump comparison -> second marshal -> skeleton independence", per, n))
 }
